@@ -85,12 +85,16 @@ func ipdoms(fn *ssa.Function) []int {
 }
 
 type arrival struct {
-	cond *Term
-	pred *ssa.BasicBlock
-	regs []Value
+	cond  *Term
+	pred  *ssa.BasicBlock
+	regs  []Value
+	isRet bool
+	ret   Value
 }
 
 type specAbort struct{}
+
+var pureModels = map[string]bool{"fmt.Errorf": true, "fmt.Sprintf": true, "fmt.Sprint": true, "errors.Join": true, "bytes.Equal": true, "math.Ceil": true}
 
 // execPure executes instruction in if it is side-effect free; returns false otherwise.
 func (e *Engine) execPure(st *State, fr *Frame, in ssa.Instruction) bool {
@@ -140,7 +144,23 @@ func (e *Engine) execPure(st *State, fr *Frame, in ssa.Instruction) bool {
 	case *ssa.Call:
 		b, ok := x.Call.Value.(*ssa.Builtin)
 		if !ok {
-			return false
+			// calls to side-effect-free models
+			callee := x.Call.StaticCallee()
+			if callee == nil || x.Call.IsInvoke() || !pureModels[callee.String()] {
+				return false
+			}
+			var args []Value
+			for _, a := range x.Call.Args {
+				args = append(args, e.get(st, fr, a))
+			}
+			r, handled := e.tryModel(st, callee, args, nil)
+			if !handled {
+				return false
+			}
+			if r != nil {
+				e.set(fr, x, r)
+			}
+			return true
 		}
 		switch b.Name() {
 		case "len", "cap", "min", "max":
@@ -161,7 +181,7 @@ func (e *Engine) execPure(st *State, fr *Frame, in ssa.Instruction) bool {
 // specRegion explores from blk (entered from pred) to join purely.
 func (e *Engine) specRegion(st *State, fr *Frame, blk, pred, join *ssa.BasicBlock, cond *Term, budget *int, out *[]arrival) {
 	if blk == join {
-		*out = append(*out, arrival{cond, pred, fr.regs})
+		*out = append(*out, arrival{cond: cond, pred: pred, regs: fr.regs})
 		return
 	}
 	*budget--
@@ -194,6 +214,24 @@ func (e *Engine) specRegion(st *State, fr *Frame, blk, pred, join *ssa.BasicBloc
 	}
 	for _, in := range blk.Instrs[len(phis):] {
 		switch x := in.(type) {
+		case *ssa.Return:
+			if join != nil {
+				panic(specAbort{})
+			}
+			var rv Value
+			switch len(x.Results) {
+			case 0:
+			case 1:
+				rv = e.get(st, &nf, x.Results[0])
+			default:
+				el := make([]Value, len(x.Results))
+				for i, r := range x.Results {
+					el[i] = e.get(st, &nf, r)
+				}
+				rv = TupleV{el}
+			}
+			*out = append(*out, arrival{cond: cond, pred: blk, isRet: true, ret: rv})
+			return
 		case *ssa.Jump:
 			e.specRegion(st, &nf, blk.Succs[0], blk, join, cond, budget, out)
 			return
@@ -227,10 +265,12 @@ func (e *Engine) tryIfConvert(st *State, fr *Frame, c *Term) (done bool) {
 	}
 	ip := ipdoms(fr.fn)
 	j := ip[fr.block.Index]
-	if j < 0 {
+	var join *ssa.BasicBlock
+	if j >= 0 {
+		join = fr.fn.Blocks[j]
+	} else if len(fr.defers) > 0 || fr.onReturn != nil && false {
 		return false
 	}
-	join := fr.fn.Blocks[j]
 	// the join must start with phis or be reached by pure paths; arrivals carry everything
 	nbind := len(st.bind)
 	npc := len(st.pc)
@@ -252,6 +292,33 @@ func (e *Engine) tryIfConvert(st *State, fr *Frame, c *Term) (done bool) {
 	}
 	if !ok || len(arr) == 0 {
 		return false
+	}
+	if join == nil {
+		// every path returns: merge the return values and return once
+		var acc Value
+		for a := len(arr) - 1; a >= 0; a-- {
+			if !arr[a].isRet {
+				return false
+			}
+			if a == len(arr)-1 {
+				acc = arr[a].ret
+				continue
+			}
+			if acc == nil || arr[a].ret == nil {
+				if acc != nil || arr[a].ret != nil {
+					return false
+				}
+				continue
+			}
+			m, mok := e.mergeValues(arr[a].cond, arr[a].ret, acc)
+			if !mok {
+				return false
+			}
+			acc = m
+		}
+		e.res.PathStatus["if-converted"]++
+		e.doReturn(st, acc)
+		return true
 	}
 	// phis at the join
 	var phis []*ssa.Phi
